@@ -615,11 +615,13 @@ func runC16(c *Ctx) {
 	c.Set("lines_per_kind", kindSeen)
 	// end-to-end through the server
 	c16EndToEnd(c, root.Fork(424242))
+	c16BlockNeighbours(c, root.Fork(434343))
 	c.Finish("annotation lines derived from the documented grammar (type, class, field, param, return, alias, generic, overload, vararg; unions, arrays, table<K,V>, fun types, "+
 		"parentheses, optional markers, trailing @comments; type depth 0-4) are parsed by LuaHelper's own annotation parser inside a worker process and the understood "+
 		"structure is compared with an independent model of the documented grammar; printable types are printed and read again (round trip); end-to-end, conformant lines "+
 		"must produce no type-18 diagnostic and single corruptions of one line may only add type-18 diagnostics on that line and must leave the hover of a neighbouring "+
-		"annotated variable unchanged. distinct_nontrivial = distinct annotation lines checked", 1000)
+		"annotated variable unchanged; a malformed line in the middle of a multi-line block (fields of a class, parameters of a "+
+		"function) must leave what the other lines of that block declare unchanged. distinct_nontrivial = distinct annotation lines checked", 1000)
 }
 
 // annoShape: the most specific syntactic feature of the line (for signatures)
@@ -754,6 +756,137 @@ func c16EndToEnd(c *Ctx, r *Rng) {
 		}
 		if mh != bh {
 			c.Report("malformed-line-changes-neighbour-hover|"+kind, fmt.Sprintf("corrupting %q changes the hover of a neighbouring annotated variable from %q to %q", a.cs.Line, truncate(bh, 120), truncate(mh, 120)), map[string]interface{}{"file": strings.Join(ml, "\n")})
+		}
+	})
+}
+
+// c16BlockNeighbours: one malformed line in the middle of a multi-line annotation block (fields of a class, parameters
+// of a function). What the other lines of the same block declare must be understood exactly as before.
+func c16BlockNeighbours(c *Ctx, r *Rng) {
+	n := c.N(200, 3000)
+	parallel(n, 12, func(i int) {
+		rr := r.Fork(uint64(i))
+		types := []string{"number", "string", "People", "People[]", "table<string, People>", "fun(a: number): string", "number | string", "boolean"}
+		nf := rr.Range(3, 5)
+		lines := []string{"---@class People", "---@field pname string", "local People = {}", "", "---@class Blk"}
+		fieldLine := map[int]int{}
+		for k := 0; k < nf; k++ {
+			fieldLine[k] = len(lines)
+			lines = append(lines, fmt.Sprintf("---@field f%d %s", k, rr.Pick(types)))
+		}
+		lines = append(lines, "local Blk = {}", "", "---@type Blk", "local bv = {}")
+		type probe struct {
+			line, col int
+			what      string
+			idx       int
+		}
+		var probes []probe
+		for k := 0; k < nf; k++ {
+			probes = append(probes, probe{len(lines), 10, fmt.Sprintf("field f%d", k), k})
+			lines = append(lines, fmt.Sprintf("print(bv.f%d)", k))
+		}
+		lines = append(lines, "")
+		paramLine := map[int]int{}
+		for k := 0; k < nf; k++ {
+			paramLine[k] = len(lines)
+			lines = append(lines, fmt.Sprintf("---@param q%d %s", k, rr.Pick(types)))
+		}
+		var ps []string
+		for k := 0; k < nf; k++ {
+			ps = append(ps, fmt.Sprintf("q%d", k))
+		}
+		lines = append(lines, fmt.Sprintf("local function pf(%s)", strings.Join(ps, ", ")))
+		for k := 0; k < nf; k++ {
+			probes = append(probes, probe{len(lines), 8, fmt.Sprintf("param q%d", k), nf + k})
+			lines = append(lines, fmt.Sprintf("  print(q%d)", k))
+		}
+		lines = append(lines, "end", "print(pf)")
+		observe := func(text, tag string) ([]string, map[int][]string, bool) {
+			ws := c.NewWorkspace(map[string]string{"blk.lua": text})
+			defer ws.Remove()
+			srv, err := StartServer(ServerOpts{Root: ws.Root, Tag: tag})
+			if err != nil {
+				if srv != nil {
+					srv.Close()
+				}
+				return nil, nil, false
+			}
+			defer srv.Close()
+			srv.DidOpen(ws.URI("blk.lua"), text)
+			var out []string
+			for _, p := range probes {
+				hv, _, err := srv.Hover(ws.URI("blk.lua"), p.line, p.col)
+				if err != nil {
+					return nil, nil, false
+				}
+				h := ""
+				if hv != nil {
+					h = hv.Contents.Value
+				}
+				out = append(out, h)
+			}
+			byLine := map[int][]string{}
+			for _, d := range srv.View()[ws.URI("blk.lua")] {
+				if d.Type == 18 {
+					byLine[d.Range.Start.Line] = append(byLine[d.Range.Start.Line], d.Message)
+				}
+			}
+			return out, byLine, true
+		}
+		base := strings.Join(lines, "\n") + "\n"
+		bh, _, ok := observe(base, fmt.Sprintf("c16b%d", i))
+		if !ok {
+			c.Inconclusive("server failed on an annotation file (C01's business)")
+			return
+		}
+		c.Eval(1)
+		// corrupt one line that is neither the first nor the last of its block
+		victim := rr.Range(1, nf-2)
+		inParams := rr.Bool()
+		ln := fieldLine[victim]
+		vidx := victim
+		if inParams {
+			ln = paramLine[victim]
+			vidx = nf + victim
+		}
+		bad, kind := c16Corrupt(rr, lines[ln])
+		if bad == lines[ln] {
+			return
+		}
+		ml := append([]string{}, lines...)
+		ml[ln] = bad
+		mh, m18, ok := observe(strings.Join(ml, "\n")+"\n", fmt.Sprintf("c16c%d", i))
+		if !ok {
+			c.Report("server-down-on-malformed-annotation|"+kind, fmt.Sprintf("the server did not survive the malformed line %q", bad), map[string]interface{}{"file": strings.Join(ml, "\n")})
+			return
+		}
+		c.Count("block_corruptions", 1)
+		c.Distinct("blk|" + bad)
+		for l, ms := range m18 {
+			if l != ln {
+				c.Report("malformed-line-disturbs-other-lines|"+kind+"|t18", fmt.Sprintf("corrupting line %d to %q puts %q on line %d", ln, bad, ms[0], l), map[string]interface{}{"file": strings.Join(ml, "\n")})
+			}
+		}
+		for pi, p := range probes {
+			if p.idx == vidx {
+				continue // what the malformed line itself declared may be lost
+			}
+			c.Count("block_neighbour_hovers_compared", 1)
+			if mh[pi] != bh[pi] {
+				where := "before"
+				if (p.idx < nf) == (vidx < nf) && p.idx > vidx {
+					where = "after"
+				} else if (p.idx < nf) != (vidx < nf) {
+					where = "in-other-block"
+				}
+				blk := "field-block"
+				if inParams {
+					blk = "param-block"
+				}
+				c.Report(fmt.Sprintf("malformed-line-changes-block-neighbour|%s|%s|%s", blk, where, kind),
+					fmt.Sprintf("corrupting line %d to %q changes what %s (declared %s the bad line) is understood as: %q -> %q", ln, bad, p.what, where, truncate(bh[pi], 100), truncate(mh[pi], 100)),
+					map[string]interface{}{"file": strings.Join(ml, "\n"), "line": ln})
+			}
 		}
 	})
 }
